@@ -78,6 +78,19 @@ def run(ctx):
     results, cover, shapes = common.e1_check(ctx, res, prof, n_quick=96, n_thorough=480, steps=150, steps_thorough=300,
                                              relevant=lambda t: False, nontrivial_rule="")
     res.extra["e1_hostile_steps"] = sum(r["steps"] for r in results)
+    # contending registrations (the own-engine interleavings of C02): aborts and unexplained closes found there
+    # are handler crashes as well
+    import multiprocessing
+    from .. import gate
+    jobs = [(binary, hooks, False, ctx.seeds(1, "own5")[0], ctx.quick, sh, 8) for sh in range(8)]
+    with multiprocessing.Pool(8) as pool:
+        oouts = pool.map(gate.own_worker, jobs)
+    for o in oouts:
+        res.evaluations += o["cases"]
+        for sig, detail in o["findings"]:
+            if sig in ("own:handler-abort", "own:closed-unexpectedly", "own:owner-lost", "own:observer-lost"):
+                res.findings.append(Finding("c05:" + sig, detail, {"engine": "own"}))
+    res.extra["registration_interleavings"] = sum(o["cases"] for o in oouts)
     res.rule = ("grammar + mutation fuzz: every verb x arity 0..max+2 x parameter shape classes (existing / non-existing / own "
                 "/ duplicated names, empty, 1 byte, 500 bytes, multi-byte, invalid UTF-8, over-long, wildcard-heavy masks, masks "
                 "with literal runs longer than any subject, numeric extremes, sign-switching mode strings with missing/excess "
